@@ -167,6 +167,15 @@ class Expander:
             c = self._copy(target)
             if "o" in spec:
                 c.origin = spec["o"]  # content-equal twin carrying another origin
+            if "do" in spec:
+                # twin that is content-equal and carries the same own origin, but holds a grandchild of
+                # another origin: same id as the original (an id covers the children's content ids and
+                # origins, not more), yet not `==` to it
+                for k, _, _ in c.children():
+                    for g, _, _ in k.children():
+                        g.origin = spec["do"]
+                        break
+                    break
             if "nc" in spec and any(f.name == "nc" for f in M.prop_fields(c.cls)):
                 c.props["nc"] = spec["nc"]  # twin that differs in a non-comparable property only
             return c
@@ -456,8 +465,10 @@ class TreeGen:
         refs: bool = False,
         rev_sources: bool = False,
         bombs: bool = False,
+        stale_pairs: bool = False,
     ) -> None:
         self.bombs = bombs
+        self.stale_pairs = stale_pairs
         self.extra_leaves = extra_leaves
         self.detach_rate = detach_rate
         self.refs = refs
@@ -627,6 +638,20 @@ class TreeGen:
                 lambda t: {"c": "Mixed", "o": ["no"], "p": {},
                            "k": {"child": None, "items": [t[0], {"$twin": -1, "nc": t[1]}, *t[2]]}})
             opts.append(pair)
+        if self.stale_pairs:
+            # a detached inner node next to its successor of the same id that is not equal to it (the
+            # id covers the children's content only, `==` their origins too)
+            lf = st.fixed_dictionaries({"c": st.just("LeafA"), "p": self.props("LeafA"),
+                                        "o": og.st_simple_origin(self.origin_index)})
+            other = lambda o, d: d if d != o else (["gen", 3] if o != ["gen", 3] else ["gen", 2])  # noqa: E731
+            stale = st.tuples(lf, og.st_simple_origin(self.origin_index), st.lists(slot, max_size=2)).map(
+                lambda t: {"c": "Mixed", "o": ["no"], "p": {},
+                           "k": {"child": None, "items": [
+                               {"c": "Mixed", "o": ["no"], "p": {}, "det": True,
+                                "k": {"child": {"c": "Mixed", "o": ["no"], "p": {}, "k": {"child": t[0], "items": []}},
+                                      "items": []}},
+                               {"$twin": -1, "do": other(t[0]["o"], t[1])}, *t[2]]}})
+            opts += [stale, stale]
         if self.wide:
             cheap = st.one_of(self.leaf_of("LeafA"), self.leaf_of("LeafB"), self.leaf_of("SubLeafA"))
             wide = st.fixed_dictionaries(
